@@ -53,6 +53,18 @@ HasCDEnd(s) == \E i \in 1..(Len(s) - 2) : s[i] = "]" /\ s[i + 1] = "]" /\ s[i + 
 
 Dev(d) == d \in Deviations
 
+\* writing character data as CDATA sections: a section cannot contain its own
+\* terminator, so "]]>" is split across two sections ("]]" ends one, ">" opens
+\* the next).  The result is a sequence of sections.
+RECURSIVE CDSections(_, _)
+CDSections(s, cur) ==
+    IF s = <<>> THEN <<cur>>
+    ELSE IF Len(s) >= 3 /\ s[1] = "]" /\ s[2] = "]" /\ s[3] = ">" /\ ~Dev("RawCData")
+         THEN <<cur \o <<"]", "]">> >> \o CDSections(SubSeq(s, 4, Len(s)), <<">">>)
+    ELSE CDSections(Tail(s), Append(cur, Head(s)))
+RECURSIVE Concat(_)
+Concat(ss) == IF ss = <<>> THEN <<>> ELSE Head(ss) \o Concat(Tail(ss))
+
 (***************************************************************************)
 (* Value sources: where an author string can enter an output document      *)
 (***************************************************************************)
@@ -60,6 +72,9 @@ AttrSources == {"attr", "var-in-attr", "expr-string", "style-attr", "cfg-svg-sty
                 "g-attr", "reuse-attr", "debug-original", "class-attr", "class-var"}
 \* longer strings over the characters that matter inside comments (dashes next to
 \* characters the debug rendition strips)
+\* strings around the CDATA terminator, for settings that flow into the style sheet
+CDStrs == UNION {[1..k -> {"]", ">", "a"}] : k \in 3..4}
+CDataSources == {"cfg-font", "cfg-background"}
 DashStrs == UNION {[1..k -> {"-", ">", "<", "Q"}] : k \in 3..4}
 TextSources == {"text-attr", "content", "text-element", "var-in-text", "cdata-content"}
 CommentSources == {"comment-attr", "raw-comment-attr", "input-comment"}
@@ -95,6 +110,7 @@ WfCases ==
     \cup {[fam |-> "wf", kind |-> "comment", src |-> src, s |-> s, ser |-> s] : src \in CommentSources, s \in Strs(MaxLen)}
     \cup {[fam |-> "wf", kind |-> "attr", src |-> src, s |-> s, ser |-> WriteAttr(s)] : src \in {"debug-original", "cfg-svg-style"}, s \in DashStrs}
     \cup {[fam |-> "wf", kind |-> "comment", src |-> src, s |-> s, ser |-> s] : src \in {"comment-attr", "raw-comment-attr"}, s \in DashStrs}
+    \cup {[fam |-> "wf", kind |-> "cdata", src |-> src, s |-> s, ser |-> CDSections(s, <<>>)] : src \in CDataSources, s \in CDStrs}
 
 \* the design's obligations for every case
 WellFormed ==
@@ -103,6 +119,8 @@ WellFormed ==
         /\ c.kind = "text" => WFText(c.ser) /\ Unesc(c.ser) = c.s
         \* a comment payload that cannot be written must make the transform fail
         /\ c.kind = "comment" => TRUE
+        \* no section contains the terminator; together they spell the value
+        /\ c.kind = "cdata" => (\A i \in 1..Len(c.ser) : ~HasCDEnd(c.ser[i])) /\ Concat(c.ser) = c.s
 
 \* writer normalisations are idempotent (C05): re-reading and re-writing an
 \* output payload reproduces it
